@@ -483,7 +483,7 @@ func (fe *FnEnc) loopHead(st *State, l *Loop) {
 				// establishing the invariant: the same-named facts of the earlier loops (and earlier cut points)
 				o.Uses = []string{}
 				for _, u := range append([]string{cl.Label}, cl.Uses...) {
-					if strings.Contains(u, ":") || strings.HasPrefix(u, "assert.") {
+					if strings.Contains(u, ":") || strings.HasPrefix(u, "assert.") || strings.HasPrefix(u, "assume.") || strings.HasPrefix(u, "call.") {
 						o.Uses = append(o.Uses, resolveUses([]string{u}, 0, "")...)
 						continue
 					}
